@@ -26,6 +26,7 @@ ALPHABET = "ABCDEFGHIJKLMNOPQRSTUVWXYZ"
 def run(ctx) -> None:
     ctx.guard("C08.formula", formulas)
     ctx.guard("C08.formula", positions_attr)
+    ctx.guard("C08.device-private", device_private)
     ctx.guard("C08.regex", regex_agreement)
     ctx.guard("C08.id-template", id_templates)
     ctx.guard("C08.id-template", grid_construction)
@@ -134,6 +135,51 @@ def formulas(ctx, rule: str = "C08.formula") -> None:
         if seen != {True, False}:
             ctx.rep.inconclusive(rule, f"{f.qualname}/paths", f"expected one trough and one plate return path, found {sorted(seen)}")
     ctx.rep.floor(rule, "guarded return paths", n, 4)
+
+
+def device_private(ctx, rule: str = "C08.device-private") -> None:
+    """The two numberings differ for troughs, so nothing one of them stores on the labware may be read by the other."""
+    MUT = {"append", "extend", "insert", "pop", "clear", "update", "setdefault", "__setitem__", "add"}
+    info = {}
+    for pkg in ("evotools", "fluenttools"):
+        f = ctx.prog.func(f"robotools.{pkg}.utils:get_well_position")
+        if f is None:
+            ctx.rep.inconclusive(rule, f"{pkg}.get_well_position", "function not found")
+            return
+        ctx.rep.touch(f)
+        lab = f.params[0]
+        writes, reads = {}, set()
+        for sub in own_walk(f.node):
+            if isinstance(sub, ast.Attribute) and is_name(sub.value, lab):
+                if isinstance(sub.ctx, ast.Load):
+                    reads.add(sub.attr)
+                else:
+                    writes.setdefault(sub.attr, sub)
+            if isinstance(sub, ast.Subscript) and isinstance(sub.ctx, (ast.Store, ast.Del)):
+                root = sub.value
+                while isinstance(root, ast.Subscript):
+                    root = root.value
+                if isinstance(root, ast.Attribute) and is_name(root.value, lab):
+                    writes.setdefault(root.attr, sub)
+            if isinstance(sub, ast.Call) and isinstance(sub.func, ast.Attribute) and sub.func.attr in MUT:
+                root = sub.func.value
+                while isinstance(root, ast.Subscript):
+                    root = root.value
+                if isinstance(root, ast.Attribute) and is_name(root.value, lab):
+                    writes.setdefault(root.attr, sub)
+        info[pkg] = (f, writes, reads)
+    n = 0
+    for a, b in (("evotools", "fluenttools"), ("fluenttools", "evotools")):
+        fa, wa, _ = info[a]
+        fb, _, rb = info[b]
+        shared = sorted(set(wa) & rb)
+        for attr in shared:
+            n += 1
+            ctx.rep.refuted(rule, f"{fa.qualname}/labware.{attr}", f"the {a} numbering stores into `labware.{attr}` and the {b} numbering reads it: the number computed for one device is handed to the other, "
+                            "although the two count trough wells differently", where=fa.where(wa[attr]))
+    if n == 0:
+        ctx.rep.holds(rule, "get_well_position(evotools|fluenttools)", "neither numbering reads labware state written by the other "
+                      f"(writes: {sorted(info['evotools'][1])} / {sorted(info['fluenttools'][1])})")
 
 
 def _poly_shape_known(p: Poly) -> bool:
